@@ -85,6 +85,15 @@ MATRIX = [
     dict(entry="atomic", mode="content", initial="canonical", base_hash="none", odd="debris"),
     dict(entry="tool", mode="content", initial="absent", base_hash="none", odd="long_name"),
     dict(entry="tool", mode="changes", initial="canonical", base_hash="none", odd="debris"),
+    # unusual but legal attributes of the target: several hard links; set-id / sticky / no-permission mode bits
+    dict(entry="tool", mode="content", initial="canonical", base_hash="current", odd="hardlinked"),
+    dict(entry="atomic", mode="content", initial="canonical", base_hash="none", odd="hardlinked", fmode=0o444),
+    dict(entry="cli_write", mode="changes", initial="canonical", base_hash="none", odd="hardlinked"),
+    dict(entry="tool", mode="normalize", initial="lenient", base_hash="none", odd="hardlinked", fmode=0o2664),
+    dict(entry="tool", mode="content", initial="canonical", base_hash="none", fmode=0o4755),
+    dict(entry="atomic", mode="content", initial="canonical", base_hash="current", fmode=0o1600),
+    dict(entry="tool", mode="changes", initial="canonical", base_hash="none", fmode=0o000),
+    dict(entry="cli_write", mode="content", initial="canonical", base_hash="none", fmode=0o200),
 ]
 
 
@@ -112,7 +121,7 @@ def gen_scenario(t: Tape, idx: int, tier: str) -> dict:
         sc["base_hash"] = t.weighted([("none", 4), ("current", 4), ("stale", 1)], "sc.bh")
         if sc["initial"] == "absent":
             sc["parent_missing"] = t.weighted([(0, 3), (1, 2), (2, 1)], "sc.pm")
-        sc["fmode"] = t.pick([0o644, 0o600, 0o444, 0o755, 0o640, 0o664], "sc.fmode")
+        sc["fmode"] = t.pick([0o644, 0o600, 0o444, 0o755, 0o640, 0o664, 0o2664, 0o4755, 0o1600, 0o000, 0o200, 0o6711], "sc.fmode")
         if entry == "tool" and sc["mode"] == "content":
             a = {}
             if t.flag(250, "sc.len"):
@@ -139,7 +148,9 @@ def gen_scenario(t: Tape, idx: int, tier: str) -> dict:
         if entry == "tool" and sc["mode"] != "content" and t.flag(60, "sc.dry2"):
             sc["args"] = {"corrections_only": True}
         if t.flag(80, "sc.odd"):
-            sc["odd"] = t.pick(["target_is_dir", "parent_is_file", "debris", "long_name"], "sc.oddk")
+            sc["odd"] = t.pick(["target_is_dir", "parent_is_file", "debris", "long_name", "hardlinked"], "sc.oddk")
+            if sc["odd"] == "hardlinked" and sc["initial"] == "absent":
+                sc["odd"] = "debris"
             if sc["odd"] in ("target_is_dir", "parent_is_file", "long_name"):
                 sc["initial"] = "absent"
                 sc["parent_missing"] = 0
@@ -258,6 +269,11 @@ def layout(sc: dict):
         spec.append(("f", target_rel + "/inside.txt", b"content of the directory\n", 0o644))
     elif init is not None:
         spec.append(("f", target_rel, init, sc.get("fmode", 0o644)))
+    if odd == "hardlinked" and init is not None:
+        # the target's inode has two more names (one beside it, one elsewhere): os.replace gives the target a new inode and
+        # leaves the other names alone; anything that tries to keep the links alive has to write in place
+        spec.append(("h", "sb/" + sub + "alias.oct.md", target_rel))
+        spec.append(("h", "sb/elsewhere/alias2.md", target_rel))
     if odd == "debris":
         # what a crashed earlier writer leaves: temp files next to the target, one of them under the very name the next
         # writer's (deterministic) name sequence starts with
@@ -649,7 +665,10 @@ def judge(case: dict, r: dict, acc: set) -> list[dict]:
                 V("A5", f"corrections_only call issued mutating operations: {mut[:4]}")
     # ---- A3.mode: an existing file keeps its permission bits (observed after the calls returned)
     if any(st == "success" and not _dry(sc, wl[i]) for i, (st, _) in enumerate(outs)):
-        if tb is not None and tb[0] == "f" and ta is not None and ta[0] == "f" and ta[1] != tb[1]:
+        # "permission bits" are the nine rwx bits (POSIX: file permission bits); set-user-ID, set-group-ID and sticky are
+        # file MODE bits but not permission bits, and the code drops them on purpose (st_mode & 0o777) as the kernel itself does
+        # when a set-id file is written -- comparing them was a false alarm of this oracle (found with fmode=0o2664/0o4755)
+        if tb is not None and tb[0] == "f" and ta is not None and ta[0] == "f" and (ta[1] & 0o777) != (tb[1] & 0o777):
             V("A3.mode", f"permission bits of the existing file changed {oct(tb[1])} -> {oct(ta[1])}; fired={fired}")
     # ---- A4: frame
     for rel, node in before.items():
